@@ -567,6 +567,7 @@ def grams_for(prop, tier, seed):
         g += F.fam_rand(tier, seed, 8 if q else 40, "stack")
         g += F.fam_rand(tier, seed, 8 if q else 40, "ws")
         g += F.fam_rand(tier, seed, 6 if q else 30, "utf8")
+        g += F.fam_rand(tier, seed, 6 if q else 60, "mix")
         g += F.fam_utf8(tier)
         k = F.fam_kinds(tier)
         g += k[::9] if q else k[::2]
@@ -583,6 +584,7 @@ def grams_for(prop, tier, seed):
         g += F.fam_rand(tier, seed, 8 if q else 40, "plain")
         g += F.fam_rand(tier, seed, 8 if q else 40, "stack")
         g += F.fam_rand(tier, seed, 6 if q else 30, "ws")
+        g += F.fam_rand(tier, seed, 5 if q else 50, "mix")
         st = F.fam_stack(tier)
         g += st[::3] if q else st
         g += F.fam_err(tier)
@@ -629,6 +631,7 @@ def grams_for(prop, tier, seed):
         st = F.fam_stack(tier)
         g = st[::2] if q else st
         g += F.fam_rand(tier, seed, 14 if q else 80, "stack")
+        g += F.fam_rand(tier, seed, 6 if q else 60, "mix")
         ss = F.fam_skipstack(tier)
         g += ss[::2] if q else ss
         return g
@@ -737,7 +740,8 @@ def check_C09(tier, seed):
         for rec, job, obs, gram in rows:
             o2 = res.get(job["idx"], {"missing": True})
             ctx.cov["evaluations"] += 1
-            d = cmp_c09(rec, job, o2, gram)
+            # (agreement with the model was decided on the dev profile, incl. the known-findings policy; here: totality and equality)
+            d = [("process", "returns", o2)] if (o2.get("crash") is not None or o2.get("timeout") or o2.get("missing")) else walk_bad(o2.get("t"), "t")
             if not d and o2 != obs:
                 d = [("profile %s differs from dev" % prof, obs, o2)]
             if d:
@@ -811,9 +815,22 @@ def replay(prop, path):
     r = json.load(open(path))
     prop = prop or r.get("property")
     if r.get("kind") != "behaviour" or prop not in COMPARE:
-        print(json.dumps(r, indent=1, ensure_ascii=False)[:6000])
-        print("replay: this record is descriptive (kind=%s); re-run ./check %s to re-evaluate" % (r.get("kind"), prop))
-        return 0
+        # records of the text / tree / raw / history / generator checks: re-run the check (same tier and seed as recorded in the
+        # evidence defaults) and report whether the same case is reported again
+        print(json.dumps(r, indent=1, ensure_ascii=False)[:3000])
+        key = {k: r.get(k) for k in ("string", "cps", "cell", "history", "grammar", "ops", "input", "rule", "field", "what", "at") if k in r}
+        before = set(os.listdir(REPLAY_DIR)) if os.path.isdir(REPLAY_DIR) else set()
+        rc = CHECKS[prop](os.environ.get("VERIF_TIER", "quick"), int(os.environ.get("VERIF_SEED", "1")))
+        again = False
+        for f in (os.listdir(REPLAY_DIR) if os.path.isdir(REPLAY_DIR) else []):
+            try:
+                x = json.load(open(os.path.join(REPLAY_DIR, f)))
+            except Exception:
+                continue
+            if x.get("property") == prop and all(x.get(k) == v for k, v in key.items()):
+                again = True
+        print("replay: the recorded case is %s" % ("reported again" if again else "no longer reported"))
+        return 1 if again else 0
     cmpf, modes, with_pest, emit = COMPARE[prop]
     ctx = Ctx(prop + "_replay", "quick", 0)
     g = dict(id=r.get("grammar_id", "g0"), text=r["grammar"], alphabet=[], maxlen=0, inputs=[r["input_cps"]],
